@@ -36,7 +36,7 @@ theorem identifierLoop_ops {S : List Node} (hS : ∀ y ∈ S, imt u y [] [] Gen.
         have hlt := idx_in_front hk hS htok htrig
         have step : Ops false S ks ks1 := Ops.of_groupTokens hk hg (Nat.le_refl _) hlt rfl
           ⟨tidx, tok, Nat.le_refl _, Nat.le_refl _, htok,
-            nonws_of_trig (fun x hw => trig_identifier (Or.inl hw)) htrig⟩
+            nonws_of_trig (fun x hw => trig_identifier (Or.inl hw)) htrig⟩ (by decide)
         obtain ⟨F1, hk1, _⟩ := step.suf F hk
         exact step.trans (ih _ _ _ h F1 hk1 (fun t2 tok2 hq => pend_of_nextBy _ _ hq))
 
@@ -82,7 +82,7 @@ theorem overLoop_ops {S : List Node} (hS : ∀ y ∈ S, imt u y [] Gen.group_ove
             have step : Ops false S ks ks1 :=
               Ops.of_groupTokens hk hg (Nat.le_of_lt (tokenNext_hit hnx).1) hn rfl
                 ⟨tidx, tok, Nat.le_refl _, Nat.le_of_lt (tokenNext_hit hnx).1, htok,
-                  nonws_of_trig (fun x hw => trig_over (Or.inl hw)) htrig⟩
+                  nonws_of_trig (fun x hw => trig_over (Or.inl hw)) htrig⟩ (by decide)
             obtain ⟨F1, hk1, _⟩ := step.suf F hk
             exact step.trans (ih _ _ _ h F1 hk1 (fun t2 tok2 hq => pend_of_nextBy _ _ hq))
         · exact ih _ _ _ h F hk (fun t2 tok2 hq => pend_of_nextBy _ _ hq)
@@ -132,7 +132,7 @@ theorem functionsLoop_ops {S : List Node}
             · cases h
             · rename_i ks1 hg
               have step : Ops false S ks ks1 := Ops.of_groupTokens hk hg (by omega) (hn) rfl
-                ⟨tidx, tok, Nat.le_refl _, by omega, htok, nonws_of_trig (fun x hw => trig_functions (Or.inl hw)) htrig⟩
+                ⟨tidx, tok, Nat.le_refl _, by omega, htok, nonws_of_trig (fun x hw => trig_functions (Or.inl hw)) htrig⟩ (by decide)
               obtain ⟨F1, hk1, _⟩ := step.suf F hk
               exact step.trans (ih _ _ _ h F1 hk1 (fun t2 tok2 hq => pend_of_nextBy _ _ hq))
           | some q2 =>
@@ -148,7 +148,7 @@ theorem functionsLoop_ops {S : List Node}
               · cases h
               · rename_i ks1 hg
                 have step : Ops false S ks ks1 := Ops.of_groupTokens hk hg (by omega) (ho) rfl
-                  ⟨tidx, tok, Nat.le_refl _, by omega, htok, nonws_of_trig (fun x hw => trig_functions (Or.inl hw)) htrig⟩
+                  ⟨tidx, tok, Nat.le_refl _, by omega, htok, nonws_of_trig (fun x hw => trig_functions (Or.inl hw)) htrig⟩ (by decide)
                 obtain ⟨F1, hk1, _⟩ := step.suf F hk
                 exact step.trans (ih _ _ _ h F1 hk1 (fun t2 tok2 hq => pend_of_nextBy _ _ hq))
             · simp only [hov, Bool.false_eq_true, ↓reduceIte] at h
@@ -156,7 +156,7 @@ theorem functionsLoop_ops {S : List Node}
               · cases h
               · rename_i ks1 hg
                 have step : Ops false S ks ks1 := Ops.of_groupTokens hk hg (by omega) (hn) rfl
-                  ⟨tidx, tok, Nat.le_refl _, by omega, htok, nonws_of_trig (fun x hw => trig_functions (Or.inl hw)) htrig⟩
+                  ⟨tidx, tok, Nat.le_refl _, by omega, htok, nonws_of_trig (fun x hw => trig_functions (Or.inl hw)) htrig⟩ (by decide)
                 obtain ⟨F1, hk1, _⟩ := step.suf F hk
                 exact step.trans (ih _ _ _ h F1 hk1 (fun t2 tok2 hq => pend_of_nextBy _ _ hq))
         · exact ih _ _ _ h F hk (fun t2 tok2 hq => pend_of_nextBy _ _ hq)
@@ -207,7 +207,7 @@ theorem aliasedLoop_ops {S : List Node}
             have step : Ops false S ks ks1 :=
               Ops.of_groupTokens hk hg (Nat.le_of_lt (tokenNext_hit hnx).1) hn rfl
                 ⟨tidx, tok, Nat.le_refl _, Nat.le_of_lt (tokenNext_hit hnx).1, htok,
-                  nonws_of_trig (fun x hw => trig_aliased (Or.inl hw)) htrig⟩
+                  nonws_of_trig (fun x hw => trig_aliased (Or.inl hw)) htrig⟩ (by decide)
             obtain ⟨F1, hk1, _⟩ := step.suf F hk
             exact step.trans (ih _ _ _ h F1 hk1 (fun t2 tok2 hq => pend_of_nextBy _ _ hq))
         · exact ih _ _ _ h F hk (fun t2 tok2 hq => pend_of_nextBy _ _ hq)
@@ -250,7 +250,7 @@ theorem orderLoop_ops {S : List Node} (hS : ∀ y ∈ S, imt u y [] [] Gen.group
             have step : Ops false S ks ks1 :=
               Ops.of_groupTokens hk hg (Nat.le_of_lt (tokenPrev_hit hpv).1) hlt rfl
                 ⟨tidx, tok, Nat.le_of_lt (tokenPrev_hit hpv).1, Nat.le_refl _, htok,
-                  nonws_of_trig (fun x hw => trig_order (Or.inl hw)) htrig⟩
+                  nonws_of_trig (fun x hw => trig_order (Or.inl hw)) htrig⟩ (by decide)
             obtain ⟨F1, hk1, _⟩ := step.suf F hk
             exact step.trans (ih _ _ _ h F1 hk1 (fun t2 tok2 hq => pend_of_nextBy _ _ hq))
         · exact ih _ _ _ h F hk (fun t2 tok2 hq => pend_of_nextBy _ _ hq)
